@@ -632,7 +632,7 @@ func (s *session) opPushHostile(rt *rapid.T) {
 	if s.bigOnes == 0 {
 		// 4 MiB manifests are the expensive part of a session (hashing, disk, JSON decoding on
 		// every listing): at most one per session, in roughly every sixth session
-		kinds = append(kinds, "oversize-manifest", "oversize-manifest", "at-manifest-cap")
+		kinds = append(kinds, "at-manifest-cap", "oversize-manifest", "oversize-manifest")
 	}
 	kind := rp.Pick(rt, "hostileKind", kinds...)
 	sub := subj.desc
